@@ -429,3 +429,11 @@ func dependsOn(v ssa.Value, pred func(ssa.Value) bool, stopAtPhi bool) bool {
 	}
 	return rec(v, 0)
 }
+
+// ConstFromTypes returns the integer value of a declared constant.
+func ConstFromTypes(c *types.Const) (int64, bool) {
+	if c == nil || c.Val().Kind() != constant.Int {
+		return 0, false
+	}
+	return constant.Int64Val(c.Val())
+}
